@@ -93,7 +93,11 @@ def parse_tlc_output(out: str, res: TlcResult):
             tag, rest = m.group(1), m.group(2)
             try:
                 if rest.startswith('"'):
-                    res.printed.append((tag, json.loads(_untla(rest))))
+                    try:
+                        inner = json.loads(rest)      # TLC escapes \" and \\ like JSON does (fast path)
+                    except Exception:
+                        inner = _untla(rest)
+                    res.printed.append((tag, json.loads(inner)))
                 else:
                     res.printed.append((tag, rest))
             except Exception:
